@@ -298,13 +298,13 @@ func runC01(e *Env) {
 		}
 		c01Doc(e, m, &c)
 		e.R.Transition(4)
-		if i%7 == 0 || e.Thorough {
+		if i%2 == 0 || e.Thorough {
 			cc := c
 			cc.Path = "cli"
 			c01Doc(e, m, &cc)
 		}
 	})
-	e.R.AddPart(ev.Part{Name: "symbol-sequences", Enumerated: "every ordered pair (A, B) of the 46 look-ups as the document [A B A B]; in-process all, real binary every 7th (quick) / all (thorough)", Executions: int64(len(pairs)), Exhaustive: true})
+	e.R.AddPart(ev.Part{Name: "symbol-sequences", Enumerated: "every ordered pair (A, B) of the 46 look-ups as the document [A B A B]; in-process all, real binary every 2nd (quick) / all (thorough)", Executions: int64(len(pairs)), Exhaustive: true})
 
 	// (c) CLI slice for the glue in package main
 	cliDegrees := []string{"1", "b3", "#4", "5", "9"}
